@@ -341,6 +341,101 @@ def conv_prog(p, tab: Tab):
     return gapp("PDfg", grow(ins), conv_region(p["body"], tab))
 
 
+# ----------------------------------------------------------------------------- program -> Coq literal (model/Builder2.v)
+
+
+def sum_rows_ids(t, tab: Tab):
+    """variant rows (as interned ids) and the id of the sum type a program's type spec denotes, as the interpreter of
+    progs.py builds it (mk_ty, or tys.Sum over sum_rows when mk_ty gives a non-Sum class)"""
+    from hugr import tys
+    sty = progs.mk_ty(t)
+    if not isinstance(sty, tys.Sum):
+        sty = tys.Sum([[progs.mk_ty(x) for x in rw] for rw in progs.sum_rows(t)])
+    rows = [[tab.ty(json.loads(x._to_serial_root().model_dump_json())) for x in r] for r in sty.variant_rows]
+    return rows, tab.sum_of(rows)
+
+
+def conv_region2(r, tab, cond_root):
+    return gapp("Reg", gwids(r["ins"]), conv_stmts2(r["stmts"], tab, cond_root), gwids(r["outs"]))
+
+
+def conv_stmts2(sts, tab, cond_root):
+    out = "TNil"
+    for st in reversed(sts):
+        out = gapp("TCons", conv_stmt2(st, tab, cond_root), out)
+    return out
+
+
+def conv_stmt2(st, tab, cond_root):
+    """cond_root: the Hugr the statement is executed on is rooted in a Conditional (the interpreter then puts a
+    constant asked for at the root into the current container instead)"""
+    k = st["k"]
+    outs = gwids(st.get("outs", []))
+    if k == "op":
+        if st["op"][0] == "callind":
+            return gapp("TCallInd", gN(st["id"]), gwids(st["args"]), outs)
+        return gapp("TOp", gN(st["id"]), conv_opspec(st["op"], tab), gwids(st["args"]), outs)
+    if k == "load":
+        v = json.loads(progs.mk_val(st["val"])._to_serial_root().model_dump_json())
+        subs = []
+        cv = conv_val(v, tab, subs)
+        if subs:
+            raise OutOfModel("function constant")
+        cp = "CRoot" if st.get("const_parent", "here") == "root" and not cond_root else "CHere"
+        (w,) = st["outs"]
+        return gapp("TLoad", gN(st["id"]), gval(cv), cp, gN(w))
+    if k == "nested":
+        if st.get("insert"):
+            ins = [tab.ty(ser_ty(t)) for t in st["in_tys"]]
+            sub = gapp("QDfg", grow(ins), conv_region2(st["body"], tab, False))
+            return gapp("TInsert", gN(st["id"]), sub, gwids(st["args"]), outs)
+        return gapp("TNested", gN(st["id"]), gwids(st["args"]), conv_region2(st["body"], tab, cond_root), outs)
+    if k == "order":
+        return gapp("TOrder", gref(st["src"]), gref(st["dst"]))
+    if k == "loop":
+        if st.get("insert"):
+            sub = gapp("QLoop", grow([tab.ty(ser_ty(t)) for t in st["just_tys"]]),
+                       grow([tab.ty(ser_ty(t)) for t in st["rest_tys"]]), conv_region2(st["body"], tab, False))
+            return gapp("TInsert", gN(st["id"]), sub, gwids(st["just"] + st["rest"]), outs)
+        return gapp("TLoop", gN(st["id"]), gwids(st["just"]), gwids(st["rest"]), conv_region2(st["body"], tab, cond_root), outs)
+    if k == "cond":
+        style = st.get("style", "cases")
+        cases = st["cases"]
+        if style == "insert":
+            rows, sid_ = sum_rows_ids(st["sum_ty"], tab)
+            others = [tab.ty(ser_ty(t)) for t in st["other_tys"]]
+            cs = conv_cases2(cases, st.get("order", range(len(cases))), tab, True)
+            sub = gapp("QCond", grows(rows), grow(others), gN(sid_), cs)
+            return gapp("TInsert", gN(st["id"]), sub, gwids([st["cond"]] + st["args"]), outs)
+        order = [1, 0] if style == "ifelse" else st.get("order", range(len(cases)))
+        return gapp("TCond", gN(st["id"]), gN(st["cond"]), gwids(st["args"]), conv_cases2(cases, order, tab, cond_root), outs)
+    raise OutOfModel(k)
+
+
+def conv_cases2(cases, order, tab, cond_root):
+    out = "CNil"
+    for i in reversed(list(order)):
+        out = gapp("CCons", gN(i), conv_region2(cases[i], tab, cond_root), out)
+    return out
+
+
+def conv_prog2(p, tab: Tab):
+    """the Coq `prog2` literal of a program, or OutOfModel"""
+    root = p["root"]
+    if root == "dfg":
+        ins = [tab.ty(ser_ty(t)) for t in p["ins"]]
+        return gapp("QDfg", grow(ins), conv_region2(p["body"], tab, False))
+    if root == "loop":
+        return gapp("QLoop", grow([tab.ty(ser_ty(t)) for t in p["just_tys"]]),
+                    grow([tab.ty(ser_ty(t)) for t in p["rest_tys"]]), conv_region2(p["body"], tab, False))
+    if root == "cond":
+        rows, sid_ = sum_rows_ids(p["sum_ty"], tab)
+        others = [tab.ty(ser_ty(t)) for t in p["other_tys"]]
+        cs = conv_cases2(p["cases"], p.get("order", range(len(p["cases"]))), tab, True)
+        return gapp("QCond", grows(rows), grow(others), gN(sid_), cs)
+    raise OutOfModel("root " + root)
+
+
 # ----------------------------------------------------------------------------- the design-time transcription (cross-check)
 
 _FAKE = None
@@ -676,6 +771,12 @@ class C01(fw.Prop):
         # mix tracked indices and explicit wires in any order (drawn last: the seeds of the streams above are unchanged)
         for i in range(48 if tier == "quick" else 500):
             cases.append({"seed": rng.randrange(1 << 30), "root": "tdfg"})
+        # programs inside the extended builder model (model/Builder2.v): loops, conditionals (cases in any order,
+        # if/else), every insert_* variant, CallIndirect, Dfg / TailLoop / Conditional roots (drawn last again)
+        for i in range(150 if tier == "quick" else 1500):
+            cases.append({"seed": rng.randrange(1 << 30), "root": ["dfg", "loop", "cond", "dfg"][i % 4],
+                          "allow": ["nested", "cond", "loop", "order", "md", "insert"],
+                          "size": rng.choice([4, 6, 8, 10]), "depth": rng.choice([2, 3, 3, 4])})
         return cases
 
     def program(self, case):
@@ -724,9 +825,19 @@ class C01(fw.Prop):
                 pl = conv_prog(obs["prog"], c["tab"])      # may intern further types: before the table is printed
                 lit = gapp("CProg", pl, gvhugr(c), gbool(obs["same"]), gbool(obs["fake"]))
                 obs["in_model"] = True
+                obs["in_model2"] = True                     # by conservativity (C01_builder2_conservative)
                 ctx.__dict__.setdefault("c01_prem", []).append((case, gapp("CPrem", gtab(c["tab"]), pl)))
             except OutOfModel as e:
                 obs["out_of_model"] = str(e)
+        if lit is None and obs["prog"]["root"] in ("dfg", "loop", "cond"):
+            # the extended builder model (model/Builder2.v): TailLoop, Conditional, insert_*, CallIndirect
+            try:
+                pl2 = conv_prog2(obs["prog"], c["tab"])
+                lit = gapp("CProg2", pl2, gvhugr(c), gbool(obs["same"]), gbool(obs["fake"]))
+                obs["in_model2"] = True
+                obs.pop("out_of_model", None)
+            except OutOfModel as e:
+                obs["out_of_model2"] = str(e)
         if lit is None:
             lit = gapp("CDoc", gvhugr(c), gbool(obs["same"]), gbool(obs["fake"]))
         ctx.__dict__.setdefault("c01_fake", []).append((case, obs["fake"], obs["fake_msg"], lit if not obs["fake"] else None))
@@ -782,7 +893,8 @@ class C01(fw.Prop):
 
     def distribution(self, cases, observations):
         d = {"roots": {}, "nodes": [], "stmt_kinds": {}, "nonlocal_edges": 0, "order_edges": 0, "fake_rejects": 0,
-             "builders_raised": 0, "inside_builder_model": 0, "out_of_model": {}}
+             "builders_raised": 0, "inside_builder_model": 0, "out_of_model": {},
+             "inside_extended_model": 0, "inside_extended_model_by_root": {}, "out_of_extended_model": {}}
         for c, o in zip(cases, observations):
             if "doc" not in o:
                 d["builders_raised"] += 1
@@ -796,6 +908,13 @@ class C01(fw.Prop):
             d["inside_builder_model"] += bool(o.get("in_model"))
             if o.get("out_of_model"):
                 d["out_of_model"][o["out_of_model"]] = d["out_of_model"].get(o["out_of_model"], 0) + 1
+            br = d["inside_extended_model_by_root"].setdefault(p["root"], [0, 0])     # [inside, generated]
+            br[1] += 1
+            if o.get("in_model2"):
+                d["inside_extended_model"] += 1
+                br[0] += 1
+            if o.get("out_of_model2"):
+                d["out_of_extended_model"][o["out_of_model2"]] = d["out_of_extended_model"].get(o["out_of_model2"], 0) + 1
             for k, v in progs.kinds_of(p).items():
                 d["stmt_kinds"][k] = d["stmt_kinds"].get(k, 0) + v
         ns = sorted(d["nodes"])
